@@ -45,6 +45,14 @@ def one(ctx, drv, i, prof, case):
         ctx.fail('C15 oracle: validator.schema of the shorthand form is not the canonical form', jcase,
                  detail={'exposed': repr(dict(short_v.schema))[:800], 'canonical': repr(dict(canon_v.schema))[:800]})
         return
+    # expanding an expanded schema changes nothing (what the thread model of C18 assumes of `expand`)
+    from cerberus.schema import DefinitionSchema
+    e1 = DefinitionSchema.expand(copy.deepcopy(short))
+    e2 = DefinitionSchema.expand(copy.deepcopy(e1))
+    if codec.canon_val(e1) != codec.canon_val(e2):
+        ctx.fail('C15 oracle: expansion is not idempotent on a shorthand schema', jcase,
+                 detail={'once': repr(e1)[:800], 'twice': repr(e2)[:800]})
+        return
     for normalize in (False, True):
         a = real.run_validate(case, normalize=normalize)
         b = real.run_validate(c2, normalize=normalize)
